@@ -1898,7 +1898,10 @@ class ConstraintSignature(BaseSignature):
             int:
             The hash of the signature.
         """
-        return hash(repr(self))
+        # This must only be based on state for which equal signatures are
+        # guaranteed to match. The attributes are compared without regard
+        # to key order, so they can't be part of the hash.
+        return hash((self.name, self.type))
 
     def __repr__(self):
         """Return a string representation of the signature.
@@ -2129,7 +2132,11 @@ class IndexSignature(BaseSignature):
             int:
             The hash of the signature.
         """
-        return hash(repr(self))
+        # This must only be based on state for which equal signatures are
+        # guaranteed to match. Empty names and expressions are considered
+        # equal, and attributes are compared without regard to key order,
+        # so those can't be part of the hash.
+        return hash(tuple(self.fields or ()))
 
     def __repr__(self):
         """Return a string representation of the signature.
